@@ -25,7 +25,7 @@ function genSpec(seed, idx) {
     opaques.push({ name: "O" + i, lts, bounds });
   }
   const structs = [];
-  const nStruct = rng.below(3);
+  const nStruct = rng.pick([0, 1, 1, 2]);
   for (let i = 0; i < nStruct; i++) {
     const nl = 1 + rng.below(2);
     const lts = LTS.slice(0, nl);
@@ -61,17 +61,19 @@ function genSpec(seed, idx) {
     const np = rng.below(4);
     for (let p = 0; p < np; p++) {
       const r = rng.below(10);
-      if (r < 6 || (r >= 9 && !structs.length)) {
+      if (r < 5 || (r >= 8 && !structs.length)) {
         const o = rng.pick(opaques);
         params.push({ name: "p" + p, kind: "opaque", ty: o.name, lt: outerLt(), args: o.lts.map(() => anyLt()) });
-      } else if (r < 7) {
+      } else if (r < 6) {
         const o = rng.pick(opaques);
         params.push({ name: "p" + p, kind: "optopaque", ty: o.name, lt: outerLt(), args: o.lts.map(() => anyLt()) });
-      } else if (r < 9) {
+      } else if (r < 8) {
         params.push({ name: "p" + p, kind: "slice", enc: rng.pick(["DiplomatStr", "str", "DiplomatStr16", "u8s"]), lt: outerLt() });
       } else {
         const s = rng.pick(structs);
-        params.push({ name: "p" + p, kind: "struct", ty: s.name, args: s.lts.map(() => anyLt()) });
+        // lifetime slots of a struct are often instantiated with one and the same lifetime
+        const same = rng.chance(1, 2) ? anyLt() : null;
+        params.push({ name: "p" + p, kind: "struct", ty: s.name, args: s.lts.map(() => same ?? anyLt()) });
       }
     }
     const ro = rng.pick(opaques);
